@@ -56,7 +56,10 @@ func genOps(r *rand.Rand, o ProgOpts, u *Uid, depth int) []ref.Op {
 	var ops []ref.Op
 	for i := 0; i < n; i++ {
 		k := BKeys[r.Intn(len(BKeys))]
-		switch c := r.Intn(14); {
+		switch c := r.Intn(15); {
+		case c == 14:
+			// look inside a structured binding - above all the engine's own "lastBindings"
+			ops = append(ops, ref.Op{Op: "copyin", K: k, K2: []string{"lastBindings", "lastBindings", "b"}[r.Intn(3)], V: BKeys[r.Intn(len(BKeys))]})
 		case c < 3:
 			if k == "t" && len(o.Targets) > 0 {
 				ops = append(ops, ref.Op{Op: "set", K: k, V: o.Targets[r.Intn(len(o.Targets))]})
@@ -179,7 +182,12 @@ func branchPattern(r *rand.Rand, forMessage bool, inspect bool) (interface{}, bo
 		}
 	}
 	if forMessage {
-		switch r.Intn(8) {
+		switch r.Intn(10) {
+		case 8:
+			// an optional variable: the message may have fewer properties than the pattern
+			return map[string]interface{}{"uid": "?u", "opt": "??o"}, true
+		case 9:
+			return map[string]interface{}{"k": "??ok", "t": "??ot", "uid": "?u"}, true
 		case 0:
 			return "?m", true
 		case 1:
@@ -202,7 +210,11 @@ func branchPattern(r *rand.Rand, forMessage bool, inspect bool) (interface{}, bo
 			return map[string]interface{}{"uid": "?u"}, true
 		}
 	}
-	switch r.Intn(8) {
+	switch r.Intn(10) {
+	case 8:
+		return map[string]interface{}{"a": "?x", "zz": "??oz"}, true
+	case 9:
+		return map[string]interface{}{"zz": "??oz", "yy": "??oy"}, true
 	case 0:
 		return map[string]interface{}{"a": "?x"}, true
 	case 1:
@@ -329,6 +341,9 @@ func GenMessage(r *rand.Rand, uid string, targets []string) interface{} {
 	}
 	if r.Intn(4) == 0 && len(targets) > 0 {
 		m["t"] = targets[r.Intn(len(targets))]
+		if r.Intn(5) == 0 {
+			m["t"] = oddTarget(r)
+		}
 	}
 	if r.Intn(4) == 0 {
 		m["l"] = []interface{}{Scalar(r)}
@@ -337,6 +352,26 @@ func GenMessage(r *rand.Rand, uid string, targets []string) interface{} {
 		}
 	}
 	return m
+}
+
+// oddTarget: what a variable branch target ("@t") may find bound instead of a node name.
+func oddTarget(r *rand.Rand) interface{} {
+	switch r.Intn(7) {
+	case 0:
+		return float64(r.Intn(3))
+	case 1:
+		return true
+	case 2:
+		return nil
+	case 3:
+		return map[string]interface{}{"node": "n1"}
+	case 4:
+		return []interface{}{"n1"}
+	case 5:
+		return ""
+	default:
+		return "no-such-node"
+	}
 }
 
 // GenBindings generates state bindings over BKeys.
@@ -352,6 +387,9 @@ func GenBindings(r *rand.Rand, targets []string) map[string]interface{} {
 			case "t":
 				if len(targets) > 0 {
 					bs[k] = targets[r.Intn(len(targets))]
+					if r.Intn(5) == 0 {
+						bs[k] = oddTarget(r)
+					}
 				}
 			default:
 				bs[k] = smallValue(r, ProgOpts{})
